@@ -112,6 +112,9 @@ func (dg *DefaultGrouper) CalcPodGroupAnnotations(topOwner *unstructured.Unstruc
 	}
 
 	maps.Copy(pgAnnotations, topOwner.GetAnnotations())
+	// When the top owner is the pod itself it already carries the pod-group annotation written by an earlier
+	// reconcile; inheriting it would make the PodGroup depend on how often its pods were reconciled.
+	delete(pgAnnotations, commonconsts.PodGroupAnnotationForPod)
 
 	return pgAnnotations
 }
